@@ -8,7 +8,7 @@
    changes.  Built on SameVec.v (the one-memory run is the glued two-memory run). *)
 From Coq Require Import ZArith List Bool Lia.
 From Cntgs Require Import Base BaseLemmas Layout LayoutThm Mem MemLemmas Vector Proxy Spec Rep ElemLemmas
-     Ordered Refine CompareThm RunsThm ElemThm CmpContent AssignThm MoveThm SwapThm SameVec.
+     Ordered Refine CompareThm RunsThm ElemThm CmpContent AssignThm MoveThm SwapThm SameVec World.
 Import ListNotations.
 Local Open Scope Z_scope.
 
@@ -314,4 +314,131 @@ Proof.
     - exact (proj1 (rep_ref L Hwf v l offs i R Hi)).
     - exact (proj1 (rep_ref L Hwf v l offs j R Hj)). }
   exact (proj1 (ref_swap_refines_exchange L Hwf v l offs R i j Hi Hj Hij Hc)).
+Qed.
+
+(* ---------- sequences of swaps within one vector: std::reverse, std::rotate, std::swap_ranges
+   (World.swaps: the iter_swap sequences libstdc++ performs for random-access iterators) ---------- *)
+Definition lswap (l : list tuple) (ij : nat * nat) : list tuple :=
+  upd (fst ij) (nth (snd ij) l []) (upd (snd ij) (nth (fst ij) l []) l).
+
+Lemma lswap_length l ij : length (lswap l ij) = length l.
+Proof. unfold lswap. rewrite !upd_length. reflexivity. Qed.
+
+Theorem swaps_refine_exchanges L : wf_plist L = true -> has_varying L = false ->
+  forall (ps : list (nat * nat)) n v l offs, RepO L v l offs -> length l = n ->
+  Forall (fun ij => (fst ij < n)%nat /\ (snd ij < n)%nat /\ fst ij <> snd ij) ps ->
+  let zs := map (fun ij => (Z.of_nat (fst ij), Z.of_nat (snd ij))) ps in
+  RepO L (fst (swaps L true v v zs)) (fold_left lswap ps l) offs.
+Proof.
+  intros Hwf Hv. induction ps as [|[i j] ps IH]; intros n v l offs R Hn Hok; cbv zeta; [exact R|].
+  cbn [map fst snd swaps fold_left].
+  inversion Hok as [|? ? (Hi & Hj & Hij) Hrest]; subst. cbn [fst snd] in *.
+  pose proof (ref_swap_refines_exchange_fixed L Hwf Hv v l offs i j R Hi Hj Hij) as R1. cbv zeta in R1.
+  destruct (ref_swap L true v (Z.of_nat i) v (Z.of_nat j)) as [[va1 vb1] e]. cbn [fst] in R1.
+  apply (IH (length l) va1 (lswap l (i, j)) offs R1); [apply lswap_length|exact Hrest].
+Qed.
+
+(* std::reverse(begin + a, begin + c) *)
+Definition rev_pairs_nat (a c : nat) : list (nat * nat) :=
+  map (fun t => (a + t, c - 1 - t)%nat) (seq 0 ((c - a) / 2)).
+
+Lemma rev_pairs_nat_Z a c : (a <= c)%nat ->
+  map (fun ij => (Z.of_nat (fst ij), Z.of_nat (snd ij))) (rev_pairs_nat a c) = rev_pairs (Z.of_nat a) (Z.of_nat c).
+Proof.
+  intros Hac. unfold rev_pairs_nat, rev_pairs. rewrite map_map.
+  assert (Hn : Z.to_nat ((Z.of_nat c - Z.of_nat a) / 2) = ((c - a) / 2)%nat).
+  { rewrite <- Nat2Z.inj_sub by exact Hac. change 2 with (Z.of_nat 2). rewrite <- Nat2Z.inj_div. apply Nat2Z.id. }
+  rewrite Hn. apply map_ext_in. intros t Ht. apply in_seq in Ht. cbn [fst snd].
+  assert (H2 : (2 * ((c - a) / 2) <= c - a)%nat) by (apply Nat.mul_div_le; lia).
+  f_equal; lia.
+Qed.
+
+Lemma rev_pairs_nat_valid a c n : (a <= c)%nat -> (c <= n)%nat ->
+  Forall (fun ij => (fst ij < n)%nat /\ (snd ij < n)%nat /\ fst ij <> snd ij) (rev_pairs_nat a c).
+Proof.
+  intros Hac Hcn. unfold rev_pairs_nat. apply Forall_forall. intros ij Hin. apply in_map_iff in Hin.
+  destruct Hin as (t & <- & Ht). apply in_seq in Ht. cbn [fst snd].
+  assert (H2 : (2 * ((c - a) / 2) <= c - a)%nat) by (apply Nat.mul_div_le; lia). lia.
+Qed.
+
+Theorem reverse_refines L : wf_plist L = true -> has_varying L = false ->
+  forall v l offs a c, RepO L v l offs -> (a <= c)%nat -> (c <= length l)%nat ->
+  RepO L (fst (swaps L true v v (rev_pairs (Z.of_nat a) (Z.of_nat c)))) (fold_left lswap (rev_pairs_nat a c) l) offs.
+Proof.
+  intros Hwf Hv v l offs a c R Hac Hcl. rewrite <- (rev_pairs_nat_Z a c Hac).
+  exact (swaps_refine_exchanges L Hwf Hv (rev_pairs_nat a c) (length l) v l offs R eq_refl
+           (rev_pairs_nat_valid a c (length l) Hac Hcl)).
+Qed.
+
+(* the exchanges of std::reverse do reverse the segment (an instance; lswap is list surgery only) *)
+Example reverse_exchanges_reverse :
+  fold_left lswap (rev_pairs_nat 1 6) [[[[0]]]; [[[1]]]; [[[2]]]; [[[3]]]; [[[4]]]; [[[5]]]; [[[6]]]] =
+  [[[[0]]]; [[[5]]]; [[[4]]]; [[[3]]]; [[[2]]]; [[[1]]]; [[[6]]]].
+Proof. reflexivity. Qed.
+
+Lemma nth_lswap (l : list tuple) i j k : (i < length l)%nat -> (j < length l)%nat ->
+  nth k (lswap l (i, j)) [] = if Nat.eqb k i then nth j l [] else if Nat.eqb k j then nth i l [] else nth k l [].
+Proof.
+  intros Hi Hj. unfold lswap. cbn [fst snd].
+  rewrite (upd_nth ([] : tuple) i _ _ k) by (rewrite upd_length; exact Hi).
+  destruct (Nat.eqb k i); [reflexivity|]. apply (upd_nth ([] : tuple) j _ l k Hj).
+Qed.
+
+(* the result of the exchanges, element by element: inside [a, c) position k holds what position
+   a + c - 1 - k held, everything else stays *)
+Lemma fold_rev_nth (l : list tuple) a c : (a <= c)%nat -> (c <= length l)%nat ->
+  forall m, (m <= (c - a) / 2)%nat -> forall k,
+  nth k (fold_left lswap (map (fun t => (a + t, c - 1 - t)%nat) (seq 0 m)) l) [] =
+  if ((a <=? k) && (k <? a + m) || (c - m <=? k) && (k <? c))%nat then nth (a + c - 1 - k) l [] else nth k l [].
+Proof.
+  intros Hac Hcl. assert (H2 : (2 * ((c - a) / 2) <= c - a)%nat) by (apply Nat.mul_div_le; lia).
+  induction m as [|m IH]; intros Hm k.
+  - cbn [seq map fold_left].
+    replace ((a <=? k) && (k <? a + 0))%nat with false by (symmetry; apply andb_false_iff; destruct (Nat.leb_spec a k); [right; apply Nat.ltb_ge; lia|left; reflexivity]).
+    replace ((c - 0 <=? k) && (k <? c))%nat with false by (symmetry; apply andb_false_iff; destruct (Nat.leb_spec (c - 0) k); [right; apply Nat.ltb_ge; lia|left; reflexivity]).
+    reflexivity.
+  - rewrite seq_S, map_app, fold_left_app. cbn [map fold_left Nat.add].
+    set (l1 := fold_left lswap (map (fun t => (a + t, c - 1 - t)%nat) (seq 0 m)) l) in *.
+    assert (Hl1 : length l1 = length l).
+    { unfold l1. clear. generalize (map (fun t => (a + t, c - 1 - t)%nat) (seq 0 m)). intros ps. revert l.
+      induction ps as [|p ps IHp]; intros l; [reflexivity|]. cbn [fold_left]. rewrite IHp. apply lswap_length. }
+    rewrite nth_lswap by (rewrite Hl1; lia).
+    rewrite !IH by lia.
+    destruct (Nat.eqb_spec k (a + m)) as [->|Hk1].
+    + replace ((a <=? c - 1 - m) && (c - 1 - m <? a + m) || (c - m <=? c - 1 - m) && (c - 1 - m <? c))%nat with false.
+      2:{ symmetry. apply orb_false_iff. split; apply andb_false_iff.
+          - right. apply Nat.ltb_ge. lia.
+          - left. apply Nat.leb_gt. lia. }
+      replace ((a <=? a + m) && (a + m <? a + S m) || (c - S m <=? a + m) && (a + m <? c))%nat with true.
+      2:{ symmetry. apply orb_true_iff. left. apply andb_true_iff. split; [apply Nat.leb_le|apply Nat.ltb_lt]; lia. }
+      f_equal. lia.
+    + destruct (Nat.eqb_spec k (c - 1 - m)) as [->|Hk2].
+      * replace ((a <=? a + m) && (a + m <? a + m) || (c - m <=? a + m) && (a + m <? c))%nat with false.
+        2:{ symmetry. apply orb_false_iff. split; apply andb_false_iff.
+            - right. apply Nat.ltb_ge. lia.
+            - left. apply Nat.leb_gt. lia. }
+        replace ((a <=? c - 1 - m) && (c - 1 - m <? a + S m) || (c - S m <=? c - 1 - m) && (c - 1 - m <? c))%nat with true.
+        2:{ symmetry. apply orb_true_iff. right. apply andb_true_iff. split; [apply Nat.leb_le|apply Nat.ltb_lt]; lia. }
+        f_equal. lia.
+      * assert (E : ((a <=? k) && (k <? a + S m) || (c - S m <=? k) && (k <? c))%nat =
+                    ((a <=? k) && (k <? a + m) || (c - m <=? k) && (k <? c))%nat).
+        { destruct (Nat.leb_spec a k); destruct (Nat.ltb_spec k (a + S m)); destruct (Nat.ltb_spec k (a + m));
+            destruct (Nat.leb_spec (c - S m) k); destruct (Nat.leb_spec (c - m) k); destruct (Nat.ltb_spec k c);
+            cbn [andb orb]; try reflexivity; exfalso; lia. }
+        rewrite E. reflexivity.
+Qed.
+
+Theorem reverse_elementwise (l : list tuple) a c : (a <= c)%nat -> (c <= length l)%nat -> forall k,
+  nth k (fold_left lswap (rev_pairs_nat a c) l) [] =
+  if ((a <=? k) && (k <? c))%nat then nth (a + c - 1 - k) l [] else nth k l [].
+Proof.
+  intros Hac Hcl k. unfold rev_pairs_nat. rewrite (fold_rev_nth l a c Hac Hcl ((c - a) / 2) (le_n _) k).
+  assert (H2 : (2 * ((c - a) / 2) <= c - a)%nat) by (apply Nat.mul_div_le; lia).
+  assert (H3 : (c - a < 2 * ((c - a) / 2) + 2)%nat).
+  { pose proof (Nat.div_mod (c - a) 2 ltac:(lia)). pose proof (Nat.mod_upper_bound (c - a) 2 ltac:(lia)). lia. }
+  set (h := ((c - a) / 2)%nat) in *.
+  destruct (Nat.leb_spec a k); destruct (Nat.ltb_spec k (a + h)); destruct (Nat.leb_spec (c - h) k); destruct (Nat.ltb_spec k c);
+    cbn [andb orb]; try reflexivity; try (exfalso; lia).
+  (* the middle element of an odd segment stays where it is - and is its own mirror image *)
+  f_equal. lia.
 Qed.
